@@ -254,6 +254,18 @@ t("C19", "ctrl-name-not-folded", "wscreen.go", "WebKeyNames[\"Ctrl-\"+strings.To
 t("C20", "same-limits-skip-the-locked-flag", VW, "\tv.limx = width\n\tv.limy = height\n\tv.locked = locked", "\tif width == v.limx && height == v.limy {\n\t\treturn\n\t}\n\tv.limx = width\n\tv.limy = height\n\tv.locked = locked", "parameter-locked")
 t("C20", "even-share-ignores-fill", BL, "\t\t\tc.pad = int(c.frac)\n\t\t\tc.frac -= float64(c.pad)\n\t\t\tresid -= c.pad\n\t\t}\n\t}\n\n\t// Distribute any left over padding.  We try to give it to the\n\t// the cells with the highest residual fraction.  It should be\n\t// the case that no single cell gets more than one more cell.\n\tfor resid > 0 {\n\t\tvar best *boxLayoutCell\n\t\tfor _, c := range b.cells {\n\t\t\tif c.fill == 0 {\n\t\t\t\tcontinue\n\t\t\t}\n\t\t\tif best == nil || c.frac > best.frac {\n\t\t\t\tbest = c\n\t\t\t}\n\t\t}\n\t\tbest.pad++\n\t\tbest.frac = 0\n\t\tresid--\n\t}\n\n\tx, y, xinc", "\t\t\tc.pad = extra / len(b.cells)\n\t\t\tc.frac -= float64(c.pad)\n\t\t\tresid -= c.pad\n\t\t}\n\t}\n\n\tfor resid > 0 {\n\t\tvar best *boxLayoutCell\n\t\tfor _, c := range b.cells {\n\t\t\tif c.fill == 0 {\n\t\t\t\tcontinue\n\t\t\t}\n\t\t\tif best == nil || c.frac > best.frac {\n\t\t\t\tbest = c\n\t\t\t}\n\t\t}\n\t\tbest.pad++\n\t\tbest.frac = 0\n\t\tresid--\n\t}\n\n\tx, y, xinc", "pad-store")
 
+# ---------------------------------------------------------------- round 10
+t("C01", "background-forgotten-without-combined-capability", TS, "\t} else {\n\t\tif fg.Valid() && ti.SetFg != \"\" {\n\t\t\tt.TPuts(ti.TParm(ti.SetFg, int(fg&0xff)))\n\t\t}\n\t\tif bg.Valid() && ti.SetBg != \"\" {\n\t\t\tt.TPuts(ti.TParm(ti.SetBg, int(bg&0xff)))\n\t\t}\n\t}", "\t} else if fg.Valid() && ti.SetFg != \"\" {\n\t\tt.TPuts(ti.TParm(ti.SetFg, int(fg&0xff)))\n\t} else if bg.Valid() && ti.SetBg != \"\" {\n\t\tt.TPuts(ti.TParm(ti.SetBg, int(bg&0xff)))\n\t}", "background-selected-on-every-path")
+t("C02", "expiry-forced-by-buffer-size", TS, "\tt.Lock()\n\tdefer t.Unlock()\n\n\tfor {\n\t\tb := buf.Bytes()", "\tt.Lock()\n\tdefer t.Unlock()\n\n\tif buf.Len() > 4096 {\n\t\texpire = true\n\t}\n\n\tfor {\n\t\tb := buf.Bytes()", "expiry-is-the-parameter")
+t("C05", "event-redated", TS, "\tfor _, ev := range evs {\n\t\tselect {\n\t\tcase t.eventQ <- ev:", "\tfor _, ev := range evs {\n\t\tif k, ok := ev.(*EventKey); ok {\n\t\t\tk.t = t.keyexpire\n\t\t}\n\t\tselect {\n\t\tcase t.eventQ <- ev:", "taken-where-the-event-is-made")
+t("C08", "combining-copy-under-the-wide-test", "cell.go", "\t\t\t\tcb.SetDirty(x+i, y, true)\n\t\t\t}\n\t\t}\n\n\t\tc.currComb = append([]rune{}, combc...)\n", "\t\t\t\tcb.SetDirty(x+i, y, true)\n\t\t\t}\n\t\t\tc.currComb = append([]rune{}, combc...)\n\t\t}\n", "combining-list-stored-as-given")
+t("C13", "frame-buffer-not-reset", TS, "\tt.buf.Reset()\n\tt.buffering = true", "\tt.buffering = true", "frame-buffer-reset-before-the-flush")
+t("C14", "bare-base-does-not-raise-the-flag", "terminfo/terminfo.go", "\t\t\tif t, _ = LookupTerminfo(base + s); t != nil {\n\t\t\t\taddtruecolor = true\n\t\t\t\tbreak\n\t\t\t}\n\t\t}\n\t}\n\n\t// If the name ends in -256color", "\t\t\tif t, _ = LookupTerminfo(base + s); t != nil {\n\t\t\t\taddtruecolor = true\n\t\t\t\tbreak\n\t\t\t}\n\t\t}\n\t\tif t == nil {\n\t\t\tt, _ = LookupTerminfo(base)\n\t\t}\n\t}\n\n\t// If the name ends in -256color", "found-switches-direct-colour-on")
+t("C15", "padding-body-kept-without-pad-character", "terminfo/terminfo.go", "\t\ts = s[end+1:]\n\n\t\t// Curses historically", "\t\tif len(t.PadChar) == 0 {\n\t\t\tcontinue\n\t\t}\n\t\ts = s[end+1:]\n\n\t\t// Curses historically", "specification-removed-whole")
+t("C17", "padding-decided-by-the-whole-cell", TS, "\tpad := width > 1 && string(buf) == \"?\"\n\tfor _, r := range combc {\n\t\tbuf = t.encodeRune(r, buf)\n\t}\n", "\tfor _, r := range combc {\n\t\tbuf = t.encodeRune(r, buf)\n\t}\n\tpad := width > 1 && string(buf) == \"?\"\n", "wide-padding-from-main-rune")
+t("C18", "resize-skipped-when-one-dimension-is-equal", "simulation.go", "\tif w != ow || h != oh {\n\t\ts.back.Resize(w, h)", "\tif w != ow && h != oh {\n\t\ts.back.Resize(w, h)", "skipped-only-when-both-dimensions-are-equal")
+t("C20", "content-events-filtered-by-sender", BL, "\tcase *EventWidgetContent:\n\t\t// This can only have come from one of our children.\n\t\tb.changed = true", "\tcase *EventWidgetContent:\n\t\tif len(b.Widgets()) == 0 {\n\t\t\treturn false\n\t\t}\n\t\tb.changed = true", "content-event-marks-the-layout-changed")
+
 # drop the placeholder teeth that were only notes
 T[:] = [x for x in T if not x["Expect"].startswith("zzz-")]
 
